@@ -23,14 +23,39 @@ sys.path.insert(0, HERE)
 from symx import driver  # noqa: E402
 
 
+class _InstanceTimeout(BaseException):
+    pass
+
+
 def _worker(spec):
+    import signal
+
+    # hard wall-clock limit per instance: pure-Python polynomial arithmetic has no other interruption point
+    limit = int(spec.get("limits", {}).get("max_s", 900) * 1.5) + 120
+
+    def _alarm(signum, frame):
+        raise _InstanceTimeout()
+
+    try:
+        signal.signal(signal.SIGALRM, _alarm)
+        signal.alarm(limit)
+    except (ValueError, AttributeError):
+        pass
     try:
         return driver.run_instance(spec)
+    except _InstanceTimeout:
+        return {"spec": {k: spec.get(k) for k in ("prop", "module", "func", "cfg")},
+                "engine_error": "instance exceeded its hard wall-clock limit of %d s (not a verdict)" % limit}
     except BaseException as e:  # engine failure: never a verdict
         import traceback
 
         return {"spec": {k: spec.get(k) for k in ("prop", "module", "func", "cfg")}, "engine_error":
                 "%s: %s\n%s" % (type(e).__name__, e, traceback.format_exc(limit=-8))}
+    finally:
+        try:
+            signal.alarm(0)
+        except Exception:
+            pass
 
 
 def load_known():
